@@ -318,6 +318,14 @@ def run(ck):
     shared.pure_writer(ck, top, wt, [wt.args.args[0].arg])
     shared.truthy_zero(ck, ['vermouth/molecule.py', 'vermouth/gmx/itp.py', 'vermouth/gmx/topology.py', 'vermouth/pdb/pdb.py', 'vermouth/processors/name_moltype.py',
                            'vermouth/processors/sort_molecule_atoms.py'])
+    # the coordinate record prints the atom's own name / residue name / residue number: every value handed to the record formatter is a plain local read from the
+    # node (an over-wide number is cut by the formatter's `t` flag, which keeps the sign and the leading digits consistent with the ITP's number up to the column
+    # width -- arithmetic on the number, e.g. a modulo, prints a different number for negative residues)
+    fcalls = [c for c in walk_local(pw) if isinstance(c, ast.Call) and call_attr(c) == 'format' and isinstance(c.func.value, ast.Name) and c.func.value.id == 'formatter']
+    arith = [u(a) for c in fcalls for a in c.args[1:] if not isinstance(a, (ast.Name, ast.Starred, ast.Constant, ast.Subscript))
+             or any(isinstance(x, (ast.BinOp, ast.Call)) for x in ast.walk(a))]
+    ck.ob('SIB-atom-order', pdb.loc(pw), bool(fcalls) and not arith, 'the values written into the PDB records are the node\'s own values, unmodified ({} record formatter call(s); '
+          'computed arguments: {})'.format(len(fcalls), arith[:3]), key='SIB-atom-order|pdb-values-verbatim')
     printed_copy_columns(ck, 'SIB-atom-order')
     # the coordinate record shows the ITP's residue number only as long as an over-wide number is cut to its columns and does not shift the others (C16's rule on
     # the formatter's spec parser, evaluated here too)
@@ -349,7 +357,38 @@ def run(ck):
         if isinstance(a, float) and isinstance(b, float) and math.isnan(a) and math.isnan(b):
             return bool(equal_nan)
         return abs(a - b) <= atol + rtol * abs(b)
-    cases = [(7, 7, False), (7, 8, True), (200000, 200001, True), (1000000, 1000001, True), (0, 0, False), (-3, -3, False), (1.0, 1.0 + 1e-9, False), (0.5, 0.6, True),
+    class _NpInt:
+        """Stand-in for a numpy integer: a whole number (numbers.Integral) that is not a Python int -- what a residue number read through numpy is."""
+        def __init__(self, v):
+            self.v = v
+
+        def __eq__(self, other):
+            return isinstance(other, _NpInt) and self.v == other.v
+
+        def __ne__(self, other):
+            return not self.__eq__(other)
+
+        def __hash__(self):
+            return hash(self.v)
+
+        def __sub__(self, other):
+            return self.v - (other.v if isinstance(other, _NpInt) else other)
+
+        def __rsub__(self, other):
+            return other - self.v
+
+        def __abs__(self):
+            return abs(self.v)
+
+        def __mul__(self, other):
+            return self.v * other
+
+        __rmul__ = __mul__
+
+        def __repr__(self):
+            return 'np.int64({})'.format(self.v)
+    _numbers.Integral.register(_NpInt)
+    cases = [(_NpInt(200000), _NpInt(200001), True), (_NpInt(12), _NpInt(12), False), (7, 7, False), (7, 8, True), (200000, 200001, True), (1000000, 1000001, True), (0, 0, False), (-3, -3, False), (1.0, 1.0 + 1e-9, False), (0.5, 0.6, True),
              (float('nan'), float('nan'), False), (1, 1.0, True), (None, None, False), ('a', 'a', False), ('a', 'b', True), (True, False, True)]
     bad = []
     try:
@@ -361,7 +400,7 @@ def run(ck):
                 bad.append('are_different({!r}, {!r}) = {!r}, expected {}'.format(left, right, got, want))
     except interp.Unsupported as err:
         bad = ['outside the interpretable fragment: {}'.format(err)]
-    ck.ob('DT-same-moltype', ut.loc(ad), not bad, 'are_different, interpreted on {} value pairs: whole numbers differ whenever they are not equal (200000 vs 200001 included -- the ITP prints '
+    ck.ob('DT-same-moltype', ut.loc(ad), not bad, 'are_different, interpreted on {} value pairs: whole numbers (Python or numpy integers) differ whenever they are not equal (200000 vs 200001 included -- the ITP prints '
           'these numbers), reals are compared up to rounding, nan equals nan, different types differ{}'.format(len(cases), '' if not bad else ' -- ' + '; '.join(bad[:3])),
           key='DT-same-moltype|are_different')
     ck.assume('file contents are not decided; equal topologies are assumed to print equal text')
